@@ -62,8 +62,29 @@ def source_is_path(s: str) -> bool:
         return False
 
 
+def token_listing(s: str, dialect: str = "en") -> list[list[int]]:
+    """The token listing (one formatted token per delivered token) printed by TokenFormatterBuilder, as code points."""
+    from gherkin.token_formatter_builder import TokenFormatterBuilder
+
+    class RecFmt(TokenFormatterBuilder):
+        def reset(self):
+            super().reset()
+            self.lines = []
+
+        def build(self, token):
+            self.lines.append(self._format_token(token))
+            super().build(token)
+
+    b = RecFmt()
+    try:
+        Parser(b).parse(s, TokenMatcher(dialect))
+    except ParserError:
+        pass
+    return [cp(x) for x in b.lines]
+
+
 def record(name: str, s: str, dialect: str = "en", mode: str = "collect", nid0: int = 0, compile_: bool = True,
-           uri: str = "u") -> dict:
+           uri: str = "u", listing: bool = False) -> dict:
     """One execution of Parser.parse (+ Compiler.compile) on the string source s, as a trace record."""
     idg = IdGenerator()
     idg._id_counter = nid0
@@ -112,5 +133,6 @@ def record(name: str, s: str, dialect: str = "en", mode: str = "collect", nid0: 
     if ev and ev[0] and ev[0][0] == ["S", "GherkinDocument"]:
         ev = [ev[0][1:]] + ev[1:]
     rec.update(ok=ok, toks=b.toks, events=ev, ast=ast, errs=errs, pickles=pk, exc=exc or "", compiled=int(bool(compile_)),
-               nid_after=idg._id_counter, ops=matcher.ops)
+               nid_after=idg._id_counter, ops=matcher.ops,
+               listing=token_listing(s, dialect) if listing else [])
     return rec
